@@ -182,6 +182,20 @@ def run(ctx):
                     ok = True
     ctx.ob('R06.5', 'load_event_file|TaskStarted keeps instance id', ok, 'the TaskStarted replay arm records the instance id carried by the event', lef.loc())
 
+    # ---- R06.7 worker message dispatch
+    ctx.rule('R06.7', 'worker: RetractTasks is answered with exactly the ids retract_tasks removed from the backlog')
+    pwm = prog.body(T + 'worker::rpc::process_worker_message')
+    TWM = T + 'messages::worker::ToWorkerMessage'
+    rc = pwm.call_blocks(WSTATE + 'retract_tasks')
+    ctx.require(rc, 'R06.7: retract_tasks call in process_worker_message')
+    vs = variants_at(pwm, TWM, rc[0])
+    ctx.ob('R06.7', 'RetractTasks -> retract_tasks', vs is not None and set(vs) == {'RetractTasks'}, f'retract_tasks handles the RetractTasks message (observed {sorted(vs) if vs else vs})', pwm.loc(rc[0]))
+    okr = False
+    for o_, b_, bi_, s_ in construct_sites(prog, T + 'messages::worker::RetractResponseMsg'):
+        if b_.path == pwm.path:
+            l_ = op_local(s_['rv'][2][0])
+            okr = l_ is not None and pwm.term[rc[0]]['d'][0] in pwm.derived_from(l_, through_mutation=False)
+    ctx.ob('R06.7', 'RetractResponse carries the removed ids', okr, 'the response lists what retract_tasks returned (not the requested ids)', pwm.loc(rc[0]))
     # ---- R06.6 worker side
     rt = prog.body(WSTATE + 'retract_tasks')
     # the pushed/collected ids are those for which remove from prefilled_tasks succeeded
